@@ -120,6 +120,26 @@ def feed(rep, repo, prop, which='general', extra_filter=None):
             inv = r.get('invariants', {})
             for k in list(inv)[:2]:
                 rep.samples.append(dict(kind='inductive invariant', run=tag, partition=k, atoms=inv[k][:14]))
+    # constructor obligations (accept/reject region, mode flags, oracle binding) carry their own property tags
+    if which in ('general', 'both'):
+        for r in d['runs']:
+            ct = r.get('ctor')
+            if not ct:
+                continue
+            for o in ct['obligations']:
+                if prop in o['props']:
+                    rep.obligations.append(dict(rule=o['rule'], ok=o['ok'], where=o['where']))
+            for a in ct['alarms']:
+                if prop not in a['props']:
+                    continue
+                if a.get('imprecise'):
+                    rep.unknown('constructor obligation "%s" fails only on an imprecise path (%s)' % (a['rule'], a['imprecise']))
+                    continue
+                construct = 'StreamTokenizer.__init__[%s]' % ';'.join('%s=%s' % (c[1], c[2]) for c in a['conds'][-3:])
+                rep.violations.append(dict(rule=a['rule'], construct=construct, where=a['where'], message='%s -- constructor path %s' % (a['rule'], a['input']),
+                                           detail=dict(branch_conditions=a['conds'], could_not_entail=a['failed'], witness=a['witness'], spec_region=ct['spec'])))
+            rep.analysed['constructor_spec_region'] = ct['spec']
+            rep.analysed['mode_flag_fields'] = ct.get('flag_fields')
     rep.extra['tokenizer_cached'] = d.get('cached')
     rep.extra['tokenizer_wall_s'] = d.get('wall_s')
     if d['runs'] and 'roles' in d['runs'][0]:
